@@ -312,8 +312,10 @@ func (c *pathCtx) assert(label string, cond *Term, pos string) {
 			panic(abortPath{"engine-error", "prefix replay diverged: expected assert"})
 		}
 		c.trace = append(c.trace, e)
-		c.sess.Assert(cond)
-		c.pcSize++
+		if !e.Forced {
+			c.sess.Assert(cond)
+			c.pcSize++
+		}
 		return
 	}
 	neg := Not(cond)
@@ -333,8 +335,12 @@ func (c *pathCtx) assert(label string, cond *Term, pos string) {
 	// continue under the assumption that the assertion holds so that later
 	// assertions are judged independently
 	if r != Unsat {
-		if c.sess.Check(cond, c.feasMs()) == Unsat {
-			panic(abortPath{"assert-always-false", label})
+		if c.feas(cond) == Unsat {
+			// the assertion fails for every input of this path: it cannot be
+			// assumed; later assertions are judged under the unchanged path
+			// condition so that other properties' labels are still evaluated
+			c.trace[len(c.trace)-1].Forced = true
+			return
 		}
 	}
 	c.sess.Assert(cond)
